@@ -73,7 +73,7 @@ THEOREMS = [
     "Ural.Props.C06.bracket_safe",
     "Ural.Props.C06.fingerprinted_host_safe",
     "Ural.Props.C06.fp_printed_whole",
-    # total on urls the parser refuses (Props/C06Total.lean, Model/FingerprintUrlExcept.lean: FX-C07-FPTOTAL)
+    # total on urls the parser refuses (Props/C06Total.lean, Model/FingerprintUrlExcept.lean: FX-C07-c806a8b)
     "Ural.Props.C06.fingerprintUrlExcept_eq",
     "Ural.Props.C06.fingerprint_unparseable_string",
     "Ural.Props.C06.fingerprint_never_raises_partial",
@@ -103,7 +103,7 @@ RULE = (
     "compared with fingerprint_url(unsplit=False) and fingerprint_url(). Oracle, on the implementation only: fingerprint(T(u)) == "
     "fingerprint(u) (tuple and string) and the shape clause on both. An url the parser refuses (bad port, unbalanced bracket, NFKC-refused netloc, "
     "five characters) is a base url like any other: fingerprint_url must not raise and returns one string under both `unsplit` (the lower-cased "
-    "url, as normalize_url returns its argument: FX-C07-FPTOTAL), letter case still ignored; the transformations that name a component and "
+    "url, as normalize_url returns its argument: FX-C07-c806a8b), letter case still ignored; the transformations that name a component and "
     "the shape clause are demanded of urls that have components. Readings (each demands less): a language label is judged on the host normalize_url leaves, T "
     "applies where the rest of the host is normalized as without the label and does not itself start with a language label (one "
     "label is stripped); host-keyed redirect rules (ampproject / marfeel / youtube) belong to infer_redirection's notion of which "
@@ -263,7 +263,7 @@ def _c(u, T, ss=False, pa=False):
 
 
 CORPUS = [
-    # FX-C07-FPTOTAL: fingerprint_url raised on every url the parser refuses (bad port, unbalanced bracket, NFKC-refused
+    # FX-C07-c806a8b: fingerprint_url raised on every url the parser refuses (bad port, unbalanced bracket, NFKC-refused
     # netloc, five characters, very long labels): no exception, the same string under both `unsplit`, case still ignored
 ] + [_c(u, ["id"]) for u in nc.REFUSED_URLS] + [_c(u, ["case", "upper", 0]) for u in nc.REFUSED_URLS[:12]] + [
     # D25 / 7b49e59: '/%41' -> '/A' but '/A' -> '/a'
@@ -617,7 +617,7 @@ def oracle(case):
         tu, su = F(u, ss, pa)
     except Exception as e:  # noqa
         # "all base URLs": an exception is no fingerprint.  An url the parser refuses comes back as a
-        # string, as from normalize_url (FX-C07-FPTOTAL: it used to be unpacked - ValueError / AttributeError)
+        # string, as from normalize_url (FX-C07-c806a8b: it used to be unpacked - ValueError / AttributeError)
         return "fingerprint_url(%r, strip_suffix=%r, platform_aware=%r) raises %s: %s" % (u, ss, pa, type(e).__name__, e)
     if isinstance(tu, str):
         # the parser refuses u: there are no components to compare (reading: the family T and the shape
